@@ -34,6 +34,7 @@ package ethnode
 //@ property C15
 //@ safety on
 //@ requires u != nil
+//@ ensures [remote-unless-absent-localhost-loopback-or-unspecified] {C18} result == (u.User != nil && hostnameOf(u.Host) != "localhost" && !unspecifiedIP(hostnameOf(u.Host)) && !loopbackIP(hostnameOf(u.Host)))
 //@ opaque byref
 
 // a node URI without a dialable remote (no address, localhost, loopback, unspecified) has the empty remote host:
@@ -43,6 +44,7 @@ package ethnode
 //@ safety on
 //@ requires u != nil
 //@ ensures [non-remote-is-empty] {C18} !uf("ethnode.(*NodeURI).hasRemote", 0, u) ==> result == ""
+//@ ensures [remote-is-the-hostname] {C18} uf("ethnode.(*NodeURI).hasRemote", 0, u) ==> result == hostnameOf(u.Host)
 //@ opaque byref
 
 //@ func (*PeerInfo).EnodeURI
